@@ -170,14 +170,19 @@ def d2_stale(ctx, obs):
             ctx.violated(rule, 'obs.py:Obs.gamma_method#global', 'uses global state %s' % n.names, obs.loc(n))
 
 
-def d3_precedence(ctx, obs):
-    rule = 'C03-D3'
+def d3_precedence(ctx, obs, rule='C03-D3'):
     f = obs.func('Obs.gamma_method._parse_kwarg')
     pname = f.args.args[0].arg
     stores = []
     for st in statements(f):
         if isinstance(st, ast.Assign) and isinstance(st.targets[0], ast.Subscript) and unparse(st.targets[0].value) == 'getattr(self, %s)' % pname:
             stores.append(st)
+    # a value that is only conditionally (re)assigned inside the loop over the ensembles leaks from one ensemble to the next
+    from .. import loopstate
+    for lp in [s_ for s_ in statements(f) if isinstance(s_, ast.For)]:
+        for nm_, node_ in loopstate.carried_reads(obs, lp):
+            ctx.violated(rule, 'obs.py:Obs.gamma_method._parse_kwarg#loop-carried[%s]' % nm_, 'the value `%s` stored for an ensemble is not determined inside that iteration on every path: '
+                         'an ensemble without its own entry inherits the value of a previously handled ensemble' % nm_, obs.loc(node_))
     if len(stores) != 3:
         ctx.unrec(rule, 'obs.py:Obs.gamma_method._parse_kwarg#stores', 'expected three stores (argument / dictionary / global), found %d' % len(stores))
         return
@@ -607,6 +612,7 @@ SELFTEST = [
     ('precedence-swapped', 'pyerrors/obs.py', "            if kwarg_name in kwargs:\n                tmp = kwargs.get(kwarg_name)", "            if kwarg_name in kwargs and not getattr(Obs, kwarg_name + '_dict'):\n                tmp = kwargs.get(kwarg_name)", None),
     ('class-default-written', 'pyerrors/obs.py', "        _parse_kwarg('S')\n", "        _parse_kwarg('S')\n        Obs.S_dict[self.names[0]] = self.S[self.e_names[0]]\n", 'C03-D2'),
     ('class-dict-setdefault', 'pyerrors/obs.py', "                    if e_name in getattr(Obs, kwarg_name + '_dict'):\n                        getattr(self, kwarg_name)[e_name] = getattr(Obs, kwarg_name + '_dict')[e_name]\n                    else:\n                        getattr(self, kwarg_name)[e_name] = getattr(Obs, kwarg_name + '_global')", "                    getattr(self, kwarg_name)[e_name] = getattr(Obs, kwarg_name + '_dict').setdefault(e_name, getattr(Obs, kwarg_name + '_global'))", 'C03-D2'),
+    ('parameter-leaks-between-ensembles', 'pyerrors/obs.py', "                for e, e_name in enumerate(self.e_names):\n                    if e_name in getattr(Obs, kwarg_name + '_dict'):\n                        getattr(self, kwarg_name)[e_name] = getattr(Obs, kwarg_name + '_dict')[e_name]\n                    else:\n                        getattr(self, kwarg_name)[e_name] = getattr(Obs, kwarg_name + '_global')", "                tmp = getattr(Obs, kwarg_name + '_global')\n                for e, e_name in enumerate(self.e_names):\n                    if e_name in getattr(Obs, kwarg_name + '_dict'):\n                        tmp = getattr(Obs, kwarg_name + '_dict')[e_name]\n                    getattr(self, kwarg_name)[e_name] = tmp", 'C03-D3'),
     ('derived-reads-analysis', 'pyerrors/obs.py', "    reweighted = len(list(filter(lambda o: o.reweighted is True, raveled_data))) > 0\n", "    reweighted = len(list(filter(lambda o: o.reweighted is True, raveled_data))) > 0\n    if all(hasattr(o, 'e_dvalue') for o in raveled_data):\n        kwargs.pop('num_grad', None)\n", 'C03-D5'),
     ('tauint-clamp-removed', 'pyerrors/obs.py', "self.e_n_tauint[e_name][self.e_n_tauint[e_name] <= 0.5] = 0.5 + np.finfo(np.float64).eps", "self.e_n_tauint[e_name][self.e_n_tauint[e_name] <= 0.25] = 0.25 + np.finfo(np.float64).eps", 'C03-D6'),
     ('gap-not-min', 'pyerrors/obs.py', "gaps.append(np.min(np.diff(o.idl[r_name])))", "gaps.append(np.min(o.idl[r_name]))", 'C03-D4'),
